@@ -106,7 +106,13 @@ pub fn gen_float(rng: &mut Rng) -> f64 {
         7 => 1e16,
         8 => 0.1,
         9 => (rng.below(2_000_000) as f64 - 1_000_000.0) / 64.0,
-        10 => (rng.next() as f64) * 10f64.powi(rng.below(600) as i32 - 300),
+        10 => loop {
+            // (the product can overflow to infinity near the top of the exponent range: finite values only)
+            let f = (rng.next() as f64) * 10f64.powi(rng.below(600) as i32 - 300);
+            if f.is_finite() {
+                break f;
+            }
+        },
         _ => loop {
             let f = f64::from_bits(rng.next());
             if f.is_finite() {
